@@ -183,7 +183,7 @@ impl TryFrom<Vec<u8>> for Target {
         Ok(Self {
             point,
             orientation,
-            constraint: Constraint::try_from(buf.get_u8()).unwrap(),
+            constraint: Constraint::try_from(buf.get_u8())?,
         })
     }
 }
